@@ -508,6 +508,14 @@ pub fn gen_c04(c: &mut Ctx) {
     for n in 0..=9usize {
         p!(c, "canonseq {}", n);
     }
+    // the sequences each entry point really walks (recording hook)
+    for n in 0..=8usize {
+        p!(c, "canonused p {}", n);
+        p!(c, "canonused n {}", n);
+        if n <= 7 || c.thorough {
+            p!(c, "canonused npn {}", n);
+        }
+    }
     let ops = ["pcanon", "ncanon", "npncanon"];
     // exhaustive for n <= 3 (quick) / n <= 4 sampled heavily
     for n in 0..=3usize {
